@@ -3,11 +3,56 @@ from vq.meta import _m
 _m(
     "C10",
     "exploration",
-    "placeholder",
-    [],
+    "Hypothesis draws four kinds of case, every array being a pure function of drawn seeds/profile parameters.  "
+    "(obj) ptychography ObjectPixelated: obj_type in {complex, pure_phase, potential} x raw parameters of shape (S 1..4, h 1..12, "
+    "w 1..12) with log-uniform magnitudes in 10^[lo,hi] (-6<=lo<hi<=6), optional exact zeros / all-zero / float32 neighbours of 1, "
+    "phases uniform, crowded at +-pi (incl. the negative real axis with +-0 imaginary part), constant or zero x constraint dict over "
+    "{positivity, fix_potential_baseline(+factor in [0,2]), identical_slices, apply_fov_mask} (each key present or absent; smoothing "
+    "filters absent or explicitly None; soft weights optionally set) x FOV mask in {none, ones, zeros, binary, arbitrary [0,1], "
+    "blurred binary support as the real caller builds it, constant} x route {obj_model.obj with the mask set through the setter, "
+    "apply_hard_constraints(params, mask)} x how the parameters got there {from_array, from_array/from_uniform/from_random then "
+    "overwritten in place} x optional re-application of the constraint to its own output.  "
+    "(tomo) tomography ObjectVoxelwise volumes (1..6)^3 with positivity on/off and shrinkage in {None, False, 0, 1e-6..1e3}.  "
+    "(ortho) ProbePixelated mode stacks M 1..5 on (h,w) 1..12 built as L*Q (L = Cholesky factor of a prescribed correlation matrix: "
+    "uniform / uniform with random phases / AR(1) chain / random PSD, largest |off-diagonal| <= 0.99 and smallest eigenvalue >= 0.005; "
+    "Q = random orthonormal vectors, optionally with a probe-like envelope) x mode norms (free, ties, equal, spread over 1e-2..1e2, "
+    "overall scale 1e-3..1e3) x mode order permutation x route {probe property, _probe_orthogonalization_constraint, probe setter then "
+    "property} x numpy/torch input.  "
+    "(init) set_initial_probe on ProbePixelated.from_array (3-D stack as above, or one 2-D probe) or from_params (80-300 keV, 10-25 mrad, "
+    "defocus, aperture radius 1.5-3 px) x weights {None default, equal, steep 10^-k, integers, floats 1e-3..1e3; list or ndarray} x mean "
+    "intensity 1e-3..1e6 x optional second set_initial_probe call with another intensity.  "
+    "A case is NON-TRIVIAL when: obj complex/pure_phase - some |raw| > 1 and some |raw| < 1 (in float32); obj potential and tomo - "
+    "some raw < 0 and some raw > 0; ortho - M >= 2 and largest pairwise correlation > 0.5; init - M >= 2 with given, not all equal "
+    "weights.  distinct = SHA-1 of the canonical JSON of the whole case.",
+    [
+        "invariants are evaluated by the harness in float64/complex128 on the tensors quantem returns; quantem code is never "
+        "re-run as its own reference (the only self-application is the re-application C(C(x)) the property itself names)",
+        "amplitude tolerances 1e-5 absolute (|o| <= 1 + 1e-5, ||o| - 1| <= 1e-5, | |C(C(x))| - |C(x)| | <= 1e-5): float32 abs/clamp/exp; "
+        "largest clean-tree deviations over 104 000 thorough-scale cases 9.9e-8 / 4.3e-8 / 1.3e-7",
+        "non-negativity (potential + positivity, tomography + positivity) and slice identity are judged exactly (no tolerance)",
+        "mode intensities, total diffraction intensity and relative weights: rtol 1e-5 (float32 sums of <= 144 squares; measured "
+        "4.5e-7 / 5.1e-7 / 4.2e-7)",
+        "orthogonality: |<p_i,p_j>| / (|p_i||p_j|) <= 1e-5 + 10 * eps32 * cond(C), cond(C) = condition number of the prescribed "
+        "correlation matrix computed by the harness: classical Gram-Schmidt loses orthogonality like eps*cond(A)^2 = eps*cond(C); "
+        "measured <= 0.55 * eps32 * cond(C) over all structures (<= 4.7e-6 absolute), i.e. >= 18x head-room; deviation from the flat "
+        "1e-4 in DESIGN.md, which would leave < 2x at cond 1000",
+        "re-application (idempotence of the amplitude) is judged for complex and pure_phase objects only: a potential object enters "
+        "the forward model as exp(i*V), whose amplitude is identically 1",
+        "with identical_slices and S > 1 the pure_phase unit-amplitude and re-application claims are not asserted (the property: "
+        "slice tying is only claimed to tie slices; the mean of phasors is shorter than 1); |o| <= 1 and o >= 0 still are (convexity)",
+        "a mask is always supplied when apply_fov_mask or fix_potential_baseline is on via the obj property (as Ptychography.preprocess "
+        "does); without any mask those options are exercised through apply_hard_constraints(mask=None)",
+        "ObjectDIP / ProbeDIP / ProbeParametric are not driven (the property quantifies over raw parameter tensors of the pixelated "
+        "models); Gaussian/Butterworth filters are never switched on",
+    ],
     workers=(1, 16),
-    technique="property-based testing (Hypothesis)",
-    text="",
-    note="",
+    technique="property-based testing (Hypothesis): admissibility invariants (|o|<=1, |o|=1, o>=0, tied slices, amplitude idempotence; "
+    "diagonal Gram matrix, preserved intensity multiset, descending order; total intensity and weights) over generated raw "
+    "parameters x constraint dicts x masks and over mode stacks with a prescribed Gram matrix",
+    text="Generated-input search: every case is judged against the invariants named in the property, evaluated in float64 on the "
+    "returned tensors; probe stacks are constructed with an exactly known correlation structure so that the orthogonality tolerance "
+    "follows the Gram-Schmidt error bound.  Exploration only: no absence claim.",
+    note="Trusts numpy float64 linear algebra/FFT for the invariants.  Known finding: a fractional FOV mask rescales the amplitude of a "
+    "complex object on every application (re-application claim).",
     design="DESIGN.md §3 C10",
 )
